@@ -67,3 +67,52 @@ Print Assumptions C20_min_trap_grad_meets_limits.
 Example C20_hypotheses_satisfiable :
   0 < 200 * 4e-6 /\ 0 < 2 /\ 0 < 18000 /\ 0 < 4e-6.
 Proof. exact trap_example_params. Qed.
+
+(* ---- spokes_grad (model/Spokes.v; the last sentence of the property) ----------------------------------------------
+   For ALL spoke location lists (any number of spokes, kx / ky of equal length), all positive tbw, slice thickness and
+   hardware limits, whenever every in-plane blip fits inside one slice-select lobe (boolean [blips_fit] — outside it
+   the python slice eats into the previous spoke and numpy.vstack raises on unequal lengths; the model keeps that
+   behaviour and the correspondence compares it), the three assembled
+   waveforms gx, gy, gz
+     - have the same length  n*|subgz| + |gref|,
+     - start and end at 0, stay within gmax in magnitude and change by at most dgdt*dt per sample,
+     - gx / gy move k-space during spoke i by exactly k_{i+1} - k_i (the location after the last spoke is 0) and are
+       zero during the refocusing lobe,
+     - gz is the slice-select lobe of min_trap_grad (flat-top area tbw/(thick/10)/4257, C20_min_trap_grad_meets_limits)
+       with alternating sign, followed by minus a trapezoid of half the lobe's total area. *)
+From SV Require Import model.Spokes proofs.Spokes.
+
+Theorem C20_spokes_grad_meets_limits :
+  forall (kx ky : list R) (tbw thick gmax dgdt dt : R),
+  0 < tbw -> 0 < thick -> 0 < gmax -> 0 < dgdt -> 0 < dt -> length kx = length ky ->
+  blips_fit (T:=RUp) kx ky tbw thick gmax dgdt dt = true ->
+  let g := spokes_grad (T:=RUp) kx ky tbw thick gmax dgdt dt in
+  let gx := fst (fst g) in let gy := snd (fst g) in let gz := snd g in
+  let area := tbw / (thick / 10) / 4257 in
+  let subgz := fst (min_trap_grad (T:=RUp) area gmax dgdt dt) in
+  let subn := length subgz in
+  let gref := fst (trap_grad (T:=RUp) (dt * rsum (T:=RUp) subgz / 2) gmax dgdt dt) in
+  let n := length kx in
+  (length gx = n * subn + length gref /\ length gy = n * subn + length gref /\ length gz = n * subn + length gref)%nat /\
+  waveform_ok gmax (dgdt * dt) gx /\ waveform_ok gmax (dgdt * dt) gy /\ waveform_ok gmax (dgdt * dt) gz /\
+  (forall i, (i < n)%nat -> fold_right Rplus 0 (seg i subn gx) * dt * 4257 = nth (S i) kx 0 - nth i kx 0) /\
+  (forall i, (i < n)%nat -> fold_right Rplus 0 (seg i subn gy) * dt * 4257 = nth (S i) ky 0 - nth i ky 0) /\
+  fold_right Rplus 0 (skipn (n * subn) gx) = 0 /\ fold_right Rplus 0 (skipn (n * subn) gy) = 0 /\
+  (forall i, (i < n)%nat -> seg i subn gz = map (fun x => (if Nat.even i then 1 else -1) * x) subgz) /\
+  skipn (n * subn) gz = map (fun x => -1 * x) gref /\
+  fold_right Rplus 0 gref * dt = dt * fold_right Rplus 0 subgz / 2 /\ (1 <= subn)%nat.
+Proof. exact spokes_grad_meets_limits. Qed.
+Print Assumptions C20_spokes_grad_meets_limits.
+
+(* what "limits" means above, spelled out *)
+Theorem C20_waveform_ok_unfold : forall gmax d g,
+  waveform_ok gmax d g <->
+  (hd 0 g = 0 /\ last g 0 = 0 /\ (forall x, In x g -> Rabs x <= gmax) /\
+   (forall i, (S i < length g)%nat -> Rabs (nth (S i) g 0 - nth i g 0) <= d)).
+Proof. exact (fun gmax d g => conj (fun H => H) (fun H => H)). Qed.
+Print Assumptions C20_waveform_ok_unfold.
+
+(* non-vacuity: the domain hypothesis holds for a spoke at the origin, for any parameters *)
+Example C20_spokes_hypotheses_satisfiable :
+  forall tbw thick gmax dgdt dt, blips_fit (T:=RUp) [0] [0] tbw thick gmax dgdt dt = true.
+Proof. exact blips_fit_origin. Qed.
